@@ -99,7 +99,7 @@ COMMENTS = r'(?:/\*[^*]*\*+(?:[^/*][^*]*\*+)*/)'
 WSC = fr'(?:{WS}|{COMMENTS})'
 # CSS escapes
 CSS_ESCAPES = fr'(?:\\(?:(?:[a-f0-9]{{6}}|[a-f0-9]{{1,5}}(?![a-f0-9])){WS}?|[^\r\n\fa-f0-9]|$))'
-CSS_STRING_ESCAPES = fr'(?:\\(?:[a-f0-9]{{1,6}}{WS}?|[^\r\n\f]|$|{NEWLINE}))'
+CSS_STRING_ESCAPES = fr'(?:\\(?:(?:[a-f0-9]{{6}}|[a-f0-9]{{1,5}}(?![a-f0-9]))(?:{WS}|(?!{WS}))|[^\r\n\fa-f0-9]|{NEWLINE}))'
 # CSS Identifier
 IDENTIFIER = fr'''
 (?:(?:-?(?:[^\x00-\x2f\x30-\x40\x5B-\x5E\x60\x7B-\x7f]|{CSS_ESCAPES})|--)
@@ -108,7 +108,7 @@ IDENTIFIER = fr'''
 # `nth` content
 NTH = fr'(?:[-+])?(?:[0-9]+n?|n)(?:(?<=n){WSC}*(?:[-+]){WSC}*(?:[0-9]+))?'
 # Value: quoted string or identifier
-VALUE = fr'''(?:"(?:\\(?:.|{NEWLINE})|[^\\"\r\n\f])*?"|'(?:\\(?:.|{NEWLINE})|[^\\'\r\n\f])*?'|{IDENTIFIER})'''
+VALUE = fr'''(?:"(?:{CSS_STRING_ESCAPES}|[^\\"\r\n\f])*?"|'(?:{CSS_STRING_ESCAPES}|[^\\'\r\n\f])*?'|{IDENTIFIER})'''
 # Attribute value comparison. `!=` is handled special as it is non-standard.
 ATTR = fr'(?:{WSC}*(?P<cmp>[!~^|*$]?=){WSC}*(?P<value>{VALUE})(?:{WSC}*(?P<case>[is]))?)?{WSC}*\]'
 
